@@ -25,7 +25,14 @@ def law_ast(rnd, reac, mods, names, locals_):
         return ["par", rnd.choice(pool)]
     sp_in = [s for s, n in reac] + list(mods)
     s = lambda: ["sp", rnd.choice(sp_in)] if sp_in else ["num", 1.0]
-    form = rnd.randrange(7)
+    form = rnd.randrange(9)
+    if form >= 7 and len(sp_in) >= 2:
+        # a power / product of a difference of two species: well conditioned as written, even for huge, nearly equal counts
+        s1, s2 = rnd.sample(sp_in, 2)
+        d = ["-", ["sp", s1], ["sp", s2]]
+        return ["*", par(), ["^", d, ["num", 2.0]]] if form == 7 else ["*", par(), ["*", d, ["+", ["sp", s1], ["sp", s2]]]]
+    if form >= 7:
+        form = 0
     if form == 0 or not sp_in:
         a = par()
         for sname, n in reac:
@@ -147,6 +154,10 @@ def gen_doc(rnd, thorough):
     states = []
     for _ in range(8):
         states.append({s: (float(rnd.randint(0, 12)) if rnd.random() < 0.3 else float("%.5g" % rnd.uniform(0.1, 20))) for s in ids})
+    for _ in range(2):
+        # huge, nearly equal integer counts (exact in a double): a kinetic law has to be evaluated as it is written
+        base = float(rnd.choice([10 ** 8, 3 * 10 ** 7, 2 ** 30]))
+        states.append({s: base + float(rnd.randint(0, 9)) for s in ids})
     return {"species": species, "params": params, "nonconstant": sorted(set(nonconst)), "reactions": reactions, "rules": rules, "states": states}
 
 
